@@ -334,29 +334,9 @@ func (d *docState) buildBase(set map[int]Obj) {
 	}
 	d.rootNode = d.alloc()
 	d.nodeParent[d.rootNode] = 0
-	level := []int{d.rootNode}
-	for l := 1; l < depth; l++ {
-		var next []int
-		for _, n := range level {
-			kids := 1 + r.Intn(2)
-			for k := 0; k < kids; k++ {
-				c := d.alloc()
-				d.nodeParent[c] = n
-				d.nodeKids[n] = append(d.nodeKids[n], c)
-				next = append(next, c)
-			}
-		}
-		level = next
-	}
-	leaves := level // nodes that hold pages
 	nPages := sp.Pages
 	if nPages < 1 {
 		nPages = 1
-	}
-	// every leaf-level node must have at least one page or be dropped; distribute pages in order
-	perLeaf := make([]int, len(leaves))
-	for i := 0; i < nPages; i++ {
-		perLeaf[i%len(leaves)]++
 	}
 	// pages must be numbered in document order = depth-first order of the tree, so hand them out in order
 	if sp.FormXObj {
@@ -366,13 +346,38 @@ func (d *docState) buildBase(set map[int]Obj) {
 	if sp.ResIndirect {
 		d.resNum = d.alloc()
 	}
-	for li, leaf := range leaves {
-		for k := 0; k < perLeaf[li]; k++ {
-			p := &pageState{num: d.alloc(), parent: leaf, serial: d.nextSerial()}
-			d.nodeKids[leaf] = append(d.nodeKids[leaf], -p.num) // negative marks a page leaf
-			d.pages = append(d.pages, p)
+	// The tree is ragged: a /Kids array may mix page leaves and Pages nodes in any
+	// order, and sibling subtrees may differ in depth. Pages are created in document
+	// order (depth first, left to right). One chain reaches the full depth.
+	var place func(node, level, n int, deep bool)
+	place = func(node, level, n int, deep bool) {
+		made := false
+		for n > 0 {
+			take := 1 + r.Intn(n)
+			sub := level < depth-1 && r.Pct(55)
+			if level < depth-1 && deep && !made && take == n {
+				sub = true
+			}
+			if sub {
+				c := d.alloc()
+				d.nodeParent[c] = node
+				d.nodeKids[node] = append(d.nodeKids[node], c)
+				place(c, level+1, take, deep && !made)
+				made = true
+			} else {
+				if take > 3 {
+					take = 1 + r.Intn(3)
+				}
+				for k := 0; k < take; k++ {
+					p := &pageState{num: d.alloc(), parent: node, serial: d.nextSerial()}
+					d.nodeKids[node] = append(d.nodeKids[node], -p.num) // negative marks a page leaf
+					d.pages = append(d.pages, p)
+				}
+			}
+			n -= take
 		}
 	}
+	place(d.rootNode, 0, nPages, true)
 	// drop empty intermediate nodes (a /Pages node without kids is not well formed)
 	d.pruneEmptyNodes()
 	// order pages depth-first
@@ -475,27 +480,39 @@ func (d *docState) groupFor(p *pageState) int {
 	if !sp.InheritVary || sp.InheritAt == 0 {
 		return 0
 	}
-	a := d.ancestor(p, sp.InheritAt)
-	if a == d.rootNode {
-		return 0
+	// every node that is the InheritAt-th ancestor of some page may carry a set of
+	// its own; a page sees the nearest such set above it (the tree is ragged, so that
+	// need not be the page's own InheritAt-th ancestor)
+	d.decideGroups()
+	for n := p.parent; n != 0 && n != d.rootNode; n = d.nodeParent[n] {
+		if g := d.groupOfNode[n]; g > 0 {
+			return g
+		}
 	}
+	return 0
+}
+
+// decideGroups fixes, for every candidate node not decided yet, whether it carries
+// inheritable attributes of its own.
+func (d *docState) decideGroups() {
 	if d.groupOfNode == nil {
 		d.groupOfNode = map[int]int{}
 	}
-	g, ok := d.groupOfNode[a]
-	if !ok {
+	for _, q := range d.pages {
+		a := d.ancestor(q, d.spec.InheritAt)
+		if a == d.rootNode {
+			continue
+		}
+		if _, ok := d.groupOfNode[a]; ok {
+			continue
+		}
+		g := -1
 		if d.r.Split("group" + strconv.Itoa(len(d.groupOfNode))).Bool() {
 			d.groups++
 			g = d.groups
-		} else {
-			g = -1
 		}
 		d.groupOfNode[a] = g
 	}
-	if g < 0 {
-		return 0
-	}
-	return g
 }
 
 func (d *docState) groupBox(g int) [4]float64 {
@@ -561,12 +578,18 @@ func (d *docState) emitTree(set map[int]Obj) {
 				// the root always carries the default attributes; an ancestor with a group of
 				// its own overrides them, one without inherits them
 				inherit[d.rootNode] = base
-				if g := d.groupOfNode[a]; g > 0 && a != d.rootNode {
-					own := Dict{{"MediaBox", boxArr(d.groupBox(g))}, {"Resources", d.groupResources(g)}}
-					// Rotate 0 must be spelled out where the root says something else
-					own = append(own, KV{"Rotate", d.groupRotate(g)})
-					inherit[a] = own
+				for _, n := range SortedNums(d.groupOfNode) {
+					if g := d.groupOfNode[n]; g > 0 && n != d.rootNode {
+						if _, live := d.nodeParent[n]; !live {
+							continue
+						}
+						own := Dict{{"MediaBox", boxArr(d.groupBox(g))}, {"Resources", d.groupResources(g)}}
+						// Rotate 0 must be spelled out where the root says something else
+						own = append(own, KV{"Rotate", d.groupRotate(g)})
+						inherit[n] = own
+					}
 				}
+				_ = a
 				continue
 			}
 			if _, ok := inherit[a]; !ok {
@@ -953,30 +976,62 @@ func padProgram(prog []byte, n int, r *sim.Rand) []byte {
 
 // splitProgram cuts a content program into k pieces at white space (the white
 // space stays at the end of the earlier piece, so plain concatenation restores
-// the program).
+// the program). ISO 32000-1 7.8.2 allows a split between any two lexical tokens,
+// so cuts also fall between an operand and its operator and inside arrays.
 func splitProgram(prog []byte, k int, r *sim.Rand) [][]byte {
 	if k <= 1 {
 		return [][]byte{prog}
 	}
-	// candidate cut points: after a newline (tokens never span lines in our programs,
-	// except inside strings, which we exclude by tracking parentheses)
-	var cuts []int
+	// candidate cut points: after white space outside strings (literal and hex)
+	// and outside comments
+	var lineCuts, tokenCuts []int
 	depth := 0
+	inHex, inComment := false, false
 	for i := 0; i < len(prog); i++ {
-		switch prog[i] {
-		case '\\':
+		c := prog[i]
+		if inComment {
+			if c == '\n' || c == '\r' {
+				inComment = false
+			} else {
+				continue
+			}
+		}
+		switch {
+		case depth > 0 && c == '\\':
 			i++
-		case '(':
+		case c == '(' && !inHex:
 			depth++
-		case ')':
+		case c == ')' && !inHex:
 			if depth > 0 {
 				depth--
 			}
-		case '\n':
-			if depth == 0 && i+1 < len(prog) {
-				cuts = append(cuts, i+1)
+		case depth > 0:
+		case c == '<':
+			if i+1 < len(prog) && prog[i+1] == '<' {
+				i++
+			} else {
+				inHex = true
+			}
+		case c == '>':
+			if inHex {
+				inHex = false
+			} else if i+1 < len(prog) && prog[i+1] == '>' {
+				i++
+			}
+		case c == '%' && !inHex:
+			inComment = true
+		case (c == '\n' || c == ' ') && !inHex && i+1 < len(prog):
+			if c == '\n' {
+				lineCuts = append(lineCuts, i+1)
+			}
+			if prog[i+1] != ' ' && prog[i+1] != '\n' && prog[i+1] != '\r' {
+				tokenCuts = append(tokenCuts, i+1)
 			}
 		}
+	}
+	cuts := tokenCuts
+	if len(lineCuts) > 0 && r.Pct(30) {
+		cuts = lineCuts
 	}
 	if len(cuts) == 0 {
 		return [][]byte{prog}
